@@ -242,7 +242,9 @@ Inductive hid :=
 | HUnsealSplit                       (* NOT the code: the key list is appended after the mutex was released *)
 | HReadKeys                          (* a handler that serves the published keys: sealed test under the mutex, then reads the key list *)
 | HOauthBegin (k st : N)             (* auth_oauth2.go oauth2DoRedirectoToProviderHandler: park the pending login k with state parameter st *)
-| HOauthCallback (k st : N).         (* auth_oauth2.go oauth2RedirectPathHandler: look the pending login up, compare the state, (provider round trip), forget it *)
+| HOauthCallback (k st : N)          (* auth_oauth2.go oauth2RedirectPathHandler: look the pending login up, compare the state, (provider round trip), forget it *)
+| HView (u : N)                      (* app.go profileHandler: a pure reader of the profile *)
+| HLogin (u : N).                    (* app.go loginHandler after the password check: userHasU2FTokens, then the profile again; nothing written for a user with tokens *)
 
 Definition has_enabled_tok (o : option profile) : bool :=
   match o with Some p => existsb t_enabled (toks p) | None => false end.
@@ -298,7 +300,14 @@ Definition handler (h : hid) : list act :=
       [Lock L_state; MapGet M_pendingOauth2 k; Unlock L_state;
        CheckMap is_some 400; CheckMap (fun m => oN_eq m (Some st)) 400;
        Lock L_state; MapDel M_pendingOauth2 k; Unlock L_state; Respond 200]
+  | HView u => [Load u; Respond 200]
+  | HLogin u => [Load u; Load u; Respond 200]
   end.
+
+(* a request that only reads the profile store and answers: nothing of it outlives it *)
+Definition is_local (a : act) : bool :=
+  match a with Load _ | Check _ _ | Soft _ _ | Respond _ => true | _ => false end.
+Definition reader (p : list act) : bool := forallb is_local p.
 
 (* app.go performStateCleanup: one pass of the periodic sweep over the in-memory maps (not a request:
    no answer), the expired keys `ks` of each map deleted inside ONE critical section *)
